@@ -1,8 +1,13 @@
 (* C08 — TOASTed and compressed values are reassembled to the original bytes.
    Property theorems only; proofs live in C08/*Proofs.v. *)
 Require Import PG.Base.Bytes PG.Base.GoSlice.
-Require Import PG.C08.Model PG.C08.Spec PG.C08.PointerProofs.
+Require Import PG.C08.Model PG.C08.Spec PG.C08.PointerProofs PG.C08.CopyProofs PG.C08.PglzProofs PG.C08.Lz4Proofs
+               PG.C08.ReassembleProofs PG.C08.SafetyProofs PG.C08.MiscProofs PG.C08.Fast PG.C08.FastProofs
+               PG.C08.StatsProofs PG.C08.TableModel PG.C08.TableProofs.
+Require PG.C02.Spec.
+From Coq Require Import Permutation.
 
+(* ---- pointer ---- *)
 (* A TOAST pointer as PostgreSQL writes it (18 bytes, whatever follows it in the tuple or in memory)
    parses to exactly the recorded sizes, value id, TOAST relation id, compression method, and to
    PostgreSQL's own "is compressed" verdict extsize < rawsize - 4. *)
@@ -10,3 +15,162 @@ Theorem C08_pointer : forall p rest t,
   wf_ptr p -> ParseTOASTPointer {| vis := enc_ptr p ++ rest; tail := t |} = Ok (Some (expected_ptr p)).
 Proof. exact parse_pointer_roundtrip. Qed.
 Print Assumptions C08_pointer.
+Example C08_pointer_ex : wf_ptr {| tp_rawsize := 10004; tp_extsize := 1503; tp_method := 1; tp_valueid := 16500; tp_toastrelid := 16390 |}.
+Proof. unfold wf_ptr; cbn; lia. Qed.
+
+(* ALL byte strings: nil exactly when shorter than 18 bytes or not starting with 0x01, otherwise the four
+   little-endian words at 2, 6, 10, 14 (the tag byte is not examined: on disk it is always 18). *)
+Theorem C08_pointer_classify : forall s,
+  (len s < 18 \/ byte_at (vis s) 0 <> 1 -> ParseTOASTPointer s = Ok None) /\
+  (18 <= len s -> byte_at (vis s) 0 = 1 ->
+   ParseTOASTPointer s = Ok (Some {| RawSize := field32 s 2; ExtSize := field32 s 6 mod 2 ^ 30;
+                                     ValueID := field32 s 10; ToastRelID := field32 s 14;
+                                     IsCompressed := field32 s 6 mod 2 ^ 30 + 4 <? field32 s 2;
+                                     CompressionMethod := field32 s 6 / 2 ^ 30 |})).
+Proof. exact parse_pointer_classify. Qed.
+Print Assumptions C08_pointer_classify.
+
+(* IsTOASTPointer: every stored pointer is recognised; on every datum of >= 2 bytes outside the
+   known-finding class (first byte 0x02) the verdict is VARATT_IS_EXTERNAL.
+   FULL STATEMENT (fails, see C08_istoast_refuted; pinned by TestIsTOASTPointer):
+     forall d t, 2 <= blen d -> IsTOASTPointer {| vis := d; tail := t |} = Ok (datum_is_external d) *)
+Theorem C08_istoast_pointer : forall p rest t, IsTOASTPointer {| vis := enc_ptr p ++ rest; tail := t |} = Ok true.
+Proof. exact is_pointer_enc. Qed.
+Theorem C08_istoast_partial : forall d t, 2 <= blen d -> kf_istoast d = false ->
+  IsTOASTPointer {| vis := d; tail := t |} = Ok (datum_is_external d).
+Proof. exact is_pointer_partial. Qed.
+Print Assumptions C08_istoast_partial.
+Theorem C08_istoast_refuted :
+  exists d, 2 <= blen d /\ kf_istoast d = true /\ IsTOASTPointer (exact d) = Ok true /\ datum_is_external d = false.
+Proof. exact is_pointer_refuted. Qed.
+
+(* ---- pglz ---- *)
+(* Every stream of the pglz format (any grouping under control bytes, every tag form: 2-byte tags for
+   lengths 3..17, 3-byte tags for 18..273, offsets 1..4095, copies that overlap their own output)
+   decompresses to exactly the denoted bytes, for all sizes, given the raw size PostgreSQL recorded. *)
+Theorem C08_pglz : forall s out t,
+  pglz_denotes s out -> out <> [] -> decompressPGLZ {| vis := s; tail := t |} (blen out) = Ok (DOk out).
+Proof. exact decompressPGLZ_denotes. Qed.
+Print Assumptions C08_pglz.
+
+(* ---- LZ4 ---- *)
+Theorem C08_lz4 : forall s out t,
+  lz4_denotes s out -> decompressLZ4 {| vis := s; tail := t |} (blen out) = Ok (DOk out).
+Proof. exact decompressLZ4_denotes. Qed.
+Print Assumptions C08_lz4.
+
+(* ---- reassembly ---- *)
+(* [stored_as rel id size payload]: rel is ANY permutation of the chunks of the payload (cut at any
+   positive chunk size) together with any chunks of other values (duplicates allowed).
+   Without a pointer, or with one that does not claim compression, the stored payload comes back. *)
+Theorem C08_reassemble : forall zlib rel id size payload ptr,
+  stored_as rel id size payload -> (0 < size)%nat ->
+  match ptr with None => True | Some p => IsCompressed p = false end ->
+  ReassembleTOAST zlib (map mchunk rel) id ptr = Ok payload.
+Proof. exact reassemble_plain. Qed.
+Print Assumptions C08_reassemble.
+
+(* compressed external value: payload = 4-byte tcinfo word ++ stream; the raw bytes come back *)
+Theorem C08_reassemble_pglz : forall zlib rel id size raw stream tcm p,
+  stored_as rel id size (compressed_payload (blen raw) tcm stream) -> (0 < size)%nat ->
+  pglz_denotes stream raw -> raw <> [] ->
+  IsCompressed p = true -> RawSize p = blen raw + 4 -> CompressionMethod p <> ToastCompressionLZ4 ->
+  ReassembleTOAST zlib (map mchunk rel) id (Some p) = Ok raw.
+Proof. exact reassemble_pglz. Qed.
+Print Assumptions C08_reassemble_pglz.
+Theorem C08_reassemble_lz4 : forall zlib rel id size raw stream tcm p,
+  stored_as rel id size (compressed_payload (blen raw) tcm stream) -> (0 < size)%nat ->
+  lz4_denotes stream raw ->
+  IsCompressed p = true -> RawSize p = blen raw + 4 -> CompressionMethod p = ToastCompressionLZ4 ->
+  ReassembleTOAST zlib (map mchunk rel) id (Some p) = Ok raw.
+Proof. exact reassemble_lz4. Qed.
+Print Assumptions C08_reassemble_lz4.
+
+(* ---- TOASTReader.ReadValue: from the 18 stored pointer bytes to the value ---- *)
+Theorem C08_readvalue_plain : forall zlib st p rel size payload rest t,
+  wf_ptr p -> stored_as rel (tp_valueid p) size payload -> (0 < size)%nat ->
+  ptr_is_compressed p = false ->
+  ReadValue zlib (LoadChunks st (tp_toastrelid p) (map mchunk rel)) {| vis := enc_ptr p ++ rest; tail := t |} = Ok payload.
+Proof. exact read_value_plain. Qed.
+Theorem C08_readvalue_compressed : forall zlib st p rel size raw stream rest t,
+  wf_ptr p -> (0 < size)%nat ->
+  stored_as rel (tp_valueid p) size (compressed_payload (blen raw) (tp_method p) stream) ->
+  tp_rawsize p = blen raw + 4 -> ptr_is_compressed p = true -> raw <> [] ->
+  (tp_method p = 0 /\ pglz_denotes stream raw \/ tp_method p = 1 /\ lz4_denotes stream raw) ->
+  ReadValue zlib (LoadChunks st (tp_toastrelid p) (map mchunk rel)) {| vis := enc_ptr p ++ rest; tail := t |} = Ok raw.
+Proof. exact read_value_compressed. Qed.
+Print Assumptions C08_readvalue_compressed.
+
+(* ---- safety, for ALL byte strings and ALL claimed raw sizes (C10 share) ---- *)
+(* decompressPGLZ: error exactly on the empty input, otherwise a result of at most max(0,rawSize) bytes;
+   never a panic, never out of the model's fuel *)
+Theorem C08_pglz_total : forall data rawSize,
+  (len data < 1 /\ decompressPGLZ data rawSize = Ok (DErr ETooShort)) \/
+  (1 <= len data /\ exists out, decompressPGLZ data rawSize = Ok (DOk out) /\ blen out <= Z.max 0 rawSize).
+Proof. exact decompressPGLZ_total. Qed.
+Print Assumptions C08_pglz_total.
+Theorem C08_lz4_total : forall data rawSize,
+  (len data < 1 /\ decompressLZ4 data rawSize = Ok (DErr ETooShort)) \/
+  (1 <= len data /\ exists d, decompressLZ4 data rawSize = Ok d /\ d <> DFuel /\
+                     forall out, d = DOk out -> blen out <= Z.max 0 rawSize + len data).
+Proof. exact decompressLZ4_total. Qed.
+Print Assumptions C08_lz4_total.
+(* the pre-allocation is bounded by the input, whatever an 18-byte pointer claims *)
+Theorem C08_alloc_bound : forall rawSize n, 0 <= n ->
+  0 <= decompressCap rawSize n <= 256 * n /\ decompressCap rawSize n <= Z.max 0 rawSize.
+Proof. exact decompressCap_bound. Qed.
+Theorem C08_no_panic : forall zlib,
+  (forall s, ParseTOASTPointer s <> Panic) /\
+  (forall chunks id ptr, ReassembleTOAST zlib chunks id ptr <> Panic) /\
+  (forall st s, ReadValue zlib st s <> Panic).
+Proof. intros. split; [exact parse_pointer_no_panic|]. split; [apply reassemble_no_panic|apply read_value_no_panic]. Qed.
+Print Assumptions C08_no_panic.
+
+(* ---- non-vacuity of the denotations; the driver's executable forms are the spec ---- *)
+Theorem C08_every_value_has_a_stream : forall v, pglz_denotes (pglz_stream (map PLit v)) v /\ lz4_denotes (enc_lz4block [] v) v.
+Proof. intros. split; [apply pglz_every_value|apply lz4_every_value]. Qed.
+Theorem C08_pglz_stream_denotes : forall its, pitems_okb its 0 = true ->
+  pglz_denotes (pglz_stream its) (pglz_out its).
+Proof.
+  intros its H. pose proof (pitems_okb_spec its [] H) as OK. rewrite pglz_out_spec by exact OK.
+  apply pglz_stream_denotes, OK.
+Qed.
+Theorem C08_lz4_block_denotes : forall seqs last, lz4seqs_okb seqs 0 = true ->
+  lz4_denotes (enc_lz4block seqs last) (lz4_out seqs last).
+Proof.
+  intros seqs last H. pose proof (lz4seqs_okb_spec seqs [] H) as OK. rewrite lz4_out_spec by exact OK.
+  exists seqs, last. auto.
+Qed.
+Print Assumptions C08_pglz_stream_denotes.
+
+(* ---- statistics ---- *)
+(* For every non-empty chunk list and EVERY order in which Go's map iteration may visit the value ids:
+   total chunks, distinct values, byte sum, max chunks per value, the chunks-per-value distribution and the
+   per-value entries (id, chunk count, bytes; listed in that iteration order) are the tallies of the chunks. *)
+Theorem C08_stats : forall relid (cs : list chunk) (order : list Z),
+  cs <> [] -> Permutation order (ids_of cs) ->
+  exists info, verbose_info_of_chunks relid (map mchunk cs) order = Some info /\
+    ti_relid info = relid /\
+    ti_total_chunks info = Z.of_nat (length cs) /\
+    ti_unique info = Z.of_nat (length (ids_of cs)) /\
+    ti_total_size info = total_bytes cs /\
+    ti_max info = max_count cs /\
+    (forall k, dist_get (ti_dist info) k = values_with_count cs k) /\
+    ti_values info = map (expected_value cs) order.
+Proof. exact stats_spec. Qed.
+Print Assumptions C08_stats.
+
+(* ---- ReadTOASTTable: chunk rows out of heap tuples (heap page scan = the C02 model) ---- *)
+(* one row (oid, int4, bytea with 1-byte or 4-byte header), whatever follows it *)
+Theorem C08_chunk_row : forall f c more t, wf_chunk c -> vl_form_ok f (ck_data c) ->
+  chunk_of_tuple {| vis := enc_chunk_tuple f c ++ more; tail := t |} = Ok (Some (mchunk c)).
+Proof. exact chunk_of_tuple_enc. Qed.
+(* a relation file of any number of pages: exactly the rows of the VISIBLE tuples, in physical order;
+   dead chunk versions (tuples that are not visible) contribute nothing whatever they contain *)
+Theorem C08_table : forall bs tl ct rows,
+  Forall PG.C02.Spec.wf_block bs -> blen tl < 8192 -> toast_rows_of bs rows -> Forall row_ok rows ->
+  ReadTOASTTable {| vis := PG.C02.Spec.enc_file bs tl; tail := ct |} = Ok (map (fun fc => mchunk (snd fc)) rows).
+Proof. exact ReadTOASTTable_file. Qed.
+Print Assumptions C08_table.
+Theorem C08_table_no_panic : forall s, ReadTOASTTable s <> Panic.
+Proof. exact ReadTOASTTable_no_panic. Qed.
